@@ -14,6 +14,9 @@ CONSTANTS
   AMOUNTS = {1,2,3}
   NONCES = {1,2}
   FRESH = TRUE
+  PREFUND = 0
+  PREDEL = 0
+  EVENTS = {"Deposit","Withdraw","Delegate","Undelegate","Associate","Dissociate","Slash","NstUpdate","ReleaseHold","EndBlock"}
   FAILBUDGET = 3
   TXHS = {"t1"}
   MAXH = 6
